@@ -46,7 +46,7 @@ SOLVER_KNOBS = {
     "GramCD": ("max_iter", "tol", "use_acc", "greedy_cd", "fit_intercept"),
     "FISTA": ("max_iter", "tol", "opt_strategy"),
     "LBFGS": ("max_iter", "tol"),
-    "PDCD_WS": ("max_iter", "max_epochs", "p0", "tol"),
+    "PDCD_WS": ("max_iter", "max_epochs", "p0", "tol", "dual_init", "warm_start"),
 }
 INNER_BUDGET = {"AndersonCD": "max_epochs", "GroupBCD": "max_epochs", "MultiTaskBCD": "max_epochs",
                 "ProxNewton": "max_pn_iter", "GroupProxNewton": "max_pn_iter",
@@ -115,6 +115,8 @@ def build_solver(name, knobs):
     kw = {k: v for k, v in (knobs or {}).items() if k in SOLVER_KNOBS[name]}
     if name in ("FISTA", "LBFGS", "PDCD_WS"):
         kw.pop("fit_intercept", None)
+    if kw.get("dual_init") is not None:
+        kw["dual_init"] = np.array(kw["dual_init"], dtype=float)
     return sols[name](**kw)
 
 
